@@ -4,6 +4,8 @@ import sys, os, fnmatch, json
 sys.path.insert(0, os.path.dirname(os.path.abspath(__file__)))
 sys.path.insert(0, os.path.dirname(os.path.dirname(os.path.abspath(__file__))))
 import vf, units
+import throttle
+throttle.install()
 pat = sys.argv[1]; tier = sys.argv[2] if len(sys.argv) > 2 else 'thorough'
 us = [u for u in units.units(tier) if fnmatch.fnmatch(u['id'], pat)]
 vf.prune_cache(1)
